@@ -73,11 +73,19 @@ theorem ecdsa_recover (lift : F → Nat → Option G) (g : G) (d k e r : F) (v :
     (hk : k ≠ 0) (hr : r ≠ 0) (hl : lift r v = some (k • g)) :
     ecdsaRecover lift g e r (k⁻¹ * (e + r * d)) v = some (d • g) := by
   simp only [ecdsaRecover, hl, Option.map_some, Option.some.injEq]
-  have : r⁻¹ • ((k⁻¹ * (e + r * d)) • k • g + -(e • g)) = (r⁻¹ * (k⁻¹ * (e + r * d) * k - e)) • g := by module
+  have : (r⁻¹ * (k⁻¹ * (e + r * d))) • k • g + -((r⁻¹ * e) • g) = (r⁻¹ * (k⁻¹ * (e + r * d) * k - e)) • g := by module
   rw [this]
   congr 1
   field_simp
   ring
+
+/-- the two-multiplication form of the model is the library's formula `(s•R − e•g)•r⁻¹` -/
+theorem ecdsaRecover_eq (lift : F → Nat → Option G) (g : G) (e r s : F) (v : Nat) :
+    ecdsaRecover lift g e r s v = (lift r v).map fun R => r⁻¹ • (s • R + -(e • g)) := by
+  unfold ecdsaRecover
+  congr 1
+  funext R
+  module
 
 /-- negating `s` negates the recomputed point -/
 theorem ecdsaPoint_neg (g pk : G) (e r s : F) :
@@ -210,9 +218,9 @@ theorem ecdsa_verify_iff (xr : G → F) (lift : F → Nat → Option G) (low : F
 
 /-- the point the verifier recomputes under the *recovered* key is the lifted point itself -/
 theorem ecdsaPoint_recover (g R : G) (e r s : F) (hr : r ≠ 0) (hs : s ≠ 0) :
-    ecdsaPoint g (r⁻¹ • (s • R + -(e • g))) e r s = R := by
+    ecdsaPoint g ((r⁻¹ * s) • R + -((r⁻¹ * e) • g)) e r s = R := by
   unfold ecdsaPoint
-  have h : (e * s⁻¹) • g + (r * s⁻¹) • r⁻¹ • (s • R + -(e • g)) =
+  have h : (e * s⁻¹) • g + (r * s⁻¹) • ((r⁻¹ * s) • R + -((r⁻¹ * e) • g)) =
       ((e * s⁻¹) - (r * s⁻¹ * r⁻¹ * e)) • g + (r * s⁻¹ * r⁻¹ * s) • R := by module
   rw [h]
   have h1 : r * s⁻¹ * r⁻¹ * s = 1 := by field_simp
@@ -229,10 +237,10 @@ theorem recover_then_verify (xr : G → F) (lift : F → Nat → Option G) (low 
       ecdsaCore xr g Q e r s = true ∧
       ecdsaVerify xr lift low false g Q e (r, s, some v) = true ∧
       ecdsaVerify xr lift low false g Q e (r, s, none) = true := by
-  have hrec : ecdsaRecover lift g e r s v = some (r⁻¹ • (s • R + -(e • g))) := by
+  have hrec : ecdsaRecover lift g e r s v = some ((r⁻¹ * s) • R + -((r⁻¹ * e) • g)) := by
     simp only [ecdsaRecover, hl, Option.map_some]
-  refine ⟨r⁻¹ • (s • R + -(e • g)), hrec, ?_⟩
-  have hc : ecdsaCore xr g (r⁻¹ • (s • R + -(e • g))) e r s = true := by
+  refine ⟨(r⁻¹ * s) • R + -((r⁻¹ * e) • g), hrec, ?_⟩
+  have hc : ecdsaCore xr g ((r⁻¹ * s) • R + -((r⁻¹ * e) • g)) e r s = true := by
     rw [ecdsaCore_iff, ecdsaPoint_recover g R e r s hr hs]
     exact ⟨hr, hs, hR, hx⟩
   refine ⟨hc, ?_, ?_⟩
@@ -255,11 +263,11 @@ theorem ecdsa_recover_eq_not_sufficient (xr : G → F) (lift : F → Nat → Opt
       ecdsaCore xr g Q e r s = false ∧
       ecdsaVerify xr lift low strict g Q e (r, s, some v) = false ∧
       ecdsaVerify xr lift low strict g Q e (r, s, none) = false := by
-  have hrec : ecdsaRecover lift g e r s v = some (r⁻¹ • (s • R + -(e • g))) := by
+  have hrec : ecdsaRecover lift g e r s v = some ((r⁻¹ * s) • R + -((r⁻¹ * e) • g)) := by
     simp only [ecdsaRecover, hl, Option.map_some]
-  refine ⟨r⁻¹ • (s • R + -(e • g)), hrec, ?_⟩
-  have hcP : ¬ (r ≠ 0 ∧ s ≠ 0 ∧ ecdsaPoint g (r⁻¹ • (s • R + -(e • g))) e r s ≠ 0 ∧
-      xr (ecdsaPoint g (r⁻¹ • (s • R + -(e • g))) e r s) = r) := by
+  refine ⟨(r⁻¹ * s) • R + -((r⁻¹ * e) • g), hrec, ?_⟩
+  have hcP : ¬ (r ≠ 0 ∧ s ≠ 0 ∧ ecdsaPoint g ((r⁻¹ * s) • R + -((r⁻¹ * e) • g)) e r s ≠ 0 ∧
+      xr (ecdsaPoint g ((r⁻¹ * s) • R + -((r⁻¹ * e) • g)) e r s) = r) := by
     rw [ecdsaPoint_recover g R e r s hr hs]
     exact fun h => hx h.2.2.2
   refine ⟨?_, ?_, ?_⟩
@@ -673,7 +681,7 @@ example : (1 + 1 * 11) % 13 % 11 = 1 := x_nowrap 13 11 1 1 (by norm_num) (by nor
 example : (5 + 11) % 13 % 11 ≠ 5 := x_wrap_ne 13 11 5 (by norm_num) (by norm_num) (by norm_num)
 
 example : ecdsaVerify (id : ℚ → ℚ) (fun (r : ℚ) _ => some r) (fun _ => true) false 1 (9 : ℚ) 5 (3, 7, some 0) = false :=
-  ecdsa_verify_other_key id _ _ false 1 (3⁻¹ * (7 * 3 + -(5 * 1))) 9 5 3 7 0 (by simp [ecdsaRecover]) (by norm_num)
+  ecdsa_verify_other_key id _ _ false 1 (3⁻¹ * 7 * 3 + -(3⁻¹ * 5 * 1)) 9 5 3 7 0 (by simp [ecdsaRecover]) (by norm_num)
 
 /-- a fabricated commitment is accepted only if the recomputed challenge equals the chosen one -/
 example : schnorrVerify (fun _ => true) false (1 : ℚ) ((2 : ℚ) • (1 : ℚ))
